@@ -20,7 +20,9 @@ type workerPool struct {
 	name    string
 	timeout time.Duration
 	memMB   int
-	maxBad  int // after this many deaths/expiries the remaining requests are "skipped" (default 6)
+	maxBad  int      // after this many deaths/expiries the remaining requests are "skipped" (default 6)
+	exe     string   // binary to run instead of this one (e.g. an instrumented or -race build of verifh)
+	env     []string // extra environment of the child
 }
 
 type workerProc struct {
@@ -30,8 +32,12 @@ type workerProc struct {
 }
 
 func (p *workerPool) start() (*workerProc, error) {
-	cmd := exec.Command(os.Args[0])
-	cmd.Env = append(os.Environ(), "VERIFH_WORKER="+p.name, fmt.Sprintf("VERIFH_MEM_MB=%d", p.memMB))
+	exe := os.Args[0]
+	if p.exe != "" {
+		exe = p.exe
+	}
+	cmd := exec.Command(exe)
+	cmd.Env = append(append(os.Environ(), "VERIFH_WORKER="+p.name, fmt.Sprintf("VERIFH_MEM_MB=%d", p.memMB)), p.env...)
 	cmd.Stderr = nil
 	in, err := cmd.StdinPipe()
 	if err != nil {
